@@ -35,6 +35,9 @@ def model_values(model):
     return out
 
 
+_unknown_replayed = {}
+
+
 def discharge(engine, chk, contracts_by_target=None, opts=None, expect_fail=None):
     """expect_fail: set of obligation names that are must-fail canaries (sat expected)"""
     opts = opts or {}
@@ -80,7 +83,23 @@ def discharge(engine, chk, contracts_by_target=None, opts=None, expect_fail=None
         elif st == "error":
             out.append(Ob(name, ERROR, backend=be, seconds=dt, detail=dict(err=str(info)[:500])))
         else:
-            out.append(Ob(name, UNDECIDED, backend=be, seconds=dt, detail=dict(reason=str(info)[:300])))
+            o = Ob(name, UNDECIDED, backend=be, seconds=dt, detail=dict(reason=str(info)[:300]))
+            # an undecided obligation is never a violation by itself; if the contract can drive the real function and a concrete
+            # input violates the clause on the real code, that replay (not the solver) is the evidence
+            target = name.split("/")[1] if "/" in name else None
+            c = (contracts_by_target or {}).get(target)
+            if c is not None and getattr(c, "replay_on_unknown", None) is not None and not _unknown_replayed.get(target):
+                _unknown_replayed[target] = True
+                try:
+                    code = c.replay_on_unknown({}, ob.meta.get("scenario_obj"), ob)
+                except Exception as e:
+                    code = None
+                if code:
+                    attach(o, code, raises_is_violation=True)
+                    if o.replay and o.replay.get("confirmed"):
+                        o.status = FAILED
+                        o.backend = "replay-after-solver-unknown"
+            out.append(o)
     if chk is not None:
         chk.extend(out)
     return out
